@@ -75,6 +75,10 @@ func registry() map[string]*Rule {
 		{Name: "IDX7", Floor: 3, Run: ruleIDX7, Doc: "a function that read the collection's catalog record writes that record back, not a freshly built one"},
 		{Name: "SKIP1", Floor: 0, Run: ruleSKIP1, Doc: "abstract evaluation of Query.Skip: a negative argument stores nothing into the skip field; zero/positive are stored as given"},
 		{Name: "PLAN9", Floor: 3, Run: rulePLAN9, Doc: "rows of the criteria->range table for operators other than Eq are reached only with a non-nil operand (a nil bound means unbounded)"},
+		{Name: "CMP7", Floor: 0, Run: ruleCMP7, Doc: "abstract evaluation of Normalize on time.Time and *time.Time inputs yields time.Time (or nil), never the pointer"},
+		{Name: "EMPTY1", Floor: 4, Run: ruleEMPTY1, Doc: "container values ([]interface{}, map[string]interface{}) returned or stored by the copy/transform helpers of util, internal and document are never nil on a success path (empty containers stay empty)"},
+		{Name: "ALIAS1", Floor: 10, Run: ruleALIAS1, Doc: "no append into the spare capacity of a slice stored in a field or package variable unless the result replaces it (keys/bounds built on a cached prefix must not alias)"},
+		{Name: "ADP8", Floor: 2, Run: ruleADP8, Doc: "the key a store.Cursor implementation returns in store.Item stays valid after the cursor moves (badger: KeyCopy, not Key)"},
 	}
 	m := map[string]*Rule{}
 	for _, r := range rules {
@@ -137,7 +141,7 @@ func propertyTable() map[string]*Property {
 		},
 		"C06": {
 			Technique:   tSSA + "index-maintenance dominance, counter-evidence dataflow, key-template analysis of drop/scan bounds",
-			Rules:       []string{"IDX1", "IDX2", "IDX3", "IDX5", "IDX6", "IDX7", "ID2~probe", "KEY1", "KEY2", "KEY3", "TX2"},
+			Rules:       []string{"IDX1", "IDX2", "IDX3", "IDX5", "IDX6", "IDX7", "ID2~probe", "KEY1", "KEY2", "KEY3", "TX2", "ADP8"},
 			Explanation: "Decides structural clauses of C06: every document write/delete is paired with index maintenance over all catalog indexes (IDX1), with old entries taken before user code can mutate the document (IDX2); the counter moves only with evidence and is written back (IDX3), and each save is behind a probe of its own key inside the write loop, so a batch repeating an id cannot grow the counter twice for one record (ID2); index creation feeds every document into the new index and drop removes through a bound that covers exactly the index's own keys; collection drop goes through the bulk delete and removes the catalog key (IDX5, KEY1-KEY3).",
 			NotDecided:  "The arithmetic equality Count == number of records over arbitrary histories (IDX3 gives the necessary discipline per site, not the sum).",
 			Assumptions: commonAssumptions,
@@ -172,7 +176,7 @@ func propertyTable() map[string]*Property {
 		},
 		"C11": {
 			Technique:   tSSA + "call-graph reachability between codec entry points and time transformers, msgpack API whitelist",
-			Rules:       []string{"COD1", "COD2"},
+			Rules:       []string{"COD1", "COD2", "CMP7", "EMPTY1"},
 			Explanation: "Decides structural clauses of C11: the time wrapper is unreachable from Decode and the unwrapper from Encode, and each transformer recurses into itself for map and slice elements (COD1: times inside arrays and inside objects nested in arrays come back as time.Time); the library uses msgpack only through Marshal/Unmarshal/RegisterExt, i.e. the default type-preserving configuration (COD2).",
 			NotDecided:  "msgpack's own fidelity for every value (trusted library), zone offsets and the gob encoding of times, deep equality of values.",
 			Assumptions: commonAssumptions,
@@ -200,7 +204,7 @@ func propertyTable() map[string]*Property {
 		},
 		"C15": {
 			Technique:   tSSA + "sibling cross-check of the store adapters (not-found mapping, cursor validity), error rules inside adapters",
-			Rules:       []string{"ADP1", "ADP2", "ADP3", "ADP4", "ADP5", "ERR1~^store/", "ERR2~^store/"},
+			Rules:       []string{"ADP1", "ADP2", "ADP3", "ADP4", "ADP5", "ADP8", "ERR1~^store/", "ERR2~^store/"},
 			Explanation: "Decides structural clauses of C15: both Tx.Get implementations map absence to (nil, nil) (ADP1); no Cursor implementation makes position validity depend on the value, so keys with empty values are visible on both backends (ADP2); only the adapter packages call the backend APIs (ADP3); keys and values handed to the store are freshly allocated, never a reused scratch buffer, which badger (retains the slice until Commit) and bbolt (copies) treat differently (ADP4); adapters drop or convert no backend error other than the not-found mapping (ERR1, ERR2).",
 			NotDecided:  "Everything else: equality of the results of identical histories on two backends and the seek contract for all key sets are runtime comparisons (DESIGN §6 lists a reverse-seek defect this family does not reach).",
 			Assumptions: commonAssumptions,
@@ -214,21 +218,21 @@ func propertyTable() map[string]*Property {
 		},
 		"C17": {
 			Technique:   tSSA + "key-template analysis of seek targets and scan bounds, error and callback-loop rules in the range index",
-			Rules:       []string{"KEY1~^index\\.", "KEY2", "KEY3", "KEY5", "RNG1", "RNG2", "PLAN9", "ERR1~^index\\.", "ERR3~^index\\."},
+			Rules:       []string{"KEY1~^index\\.", "KEY2", "KEY3", "KEY5", "RNG1", "RNG2", "PLAN9", "ALIAS1", "ERR1~^index\\.", "ERR3~^index\\."},
 			Explanation: "Decides structural clauses of C17: a range scan or full iteration is bounded by a prefix that covers exactly the index's own entries, add and remove use one layout (KEY1-KEY3); specialised on reverse = true, every seek target carries the 0xFF upper sentinel, without which an inclusive upper bound loses its entries in descending scans (KEY5); seek and item errors are propagated (ERR1); the scan stops when the consumer asks and the stop does not escape (ERR3).",
 			NotDecided:  "Bound arithmetic: inclusive/exclusive ends, emptiness and intersection of ranges over values, order of the yielded ids.",
 			Assumptions: commonAssumptions,
 		},
 		"C18": {
 			Technique:   tSSA + "reflect.Kind switch table extraction and return-type classification of Normalize",
-			Rules:       []string{"CMP5", "CMP6"},
-			Explanation: "Decides structural clauses of C18: Normalize's kind switch has a case for every integer width, both floats, string, bool, struct, map, slice and array, and the value returned under each case has the canonical static type (signed->int64, unsigned->uint64, floats->float64, struct/map->map[string]interface{}, slice/array->[]interface{}); every other return is nil or a pass-through pinned by clover's own tests; Document.Set touches the document only when normalisation succeeded (an unsupported value leaves it unchanged) (CMP5); whether an embedded field is flattened is decided by Anonymous and by its normalised value being an object, nothing else (CMP6).",
+			Rules:       []string{"CMP5", "CMP6", "CMP7", "IMM2~global"},
+			Explanation: "Decides structural clauses of C18: Normalize's kind switch has a case for every integer width, both floats, string, bool, struct, map, slice and array, and the value returned under each case has the canonical static type (signed->int64, unsigned->uint64, floats->float64, struct/map->map[string]interface{}, slice/array->[]interface{}); every other return is nil or a pass-through pinned by clover's own tests; Document.Set touches the document only when normalisation succeeded (an unsupported value leaves it unchanged) (CMP5); whether an embedded field is flattened is decided by Anonymous and by its normalised value being an object, nothing else (CMP6); times and pointers to times normalise to time.Time (CMP7); no package-level variable is written or used as a run-time cache, so conversion is a function of its input alone (IMM2, the 'deterministically' clause).",
 			NotDecided:  "Idempotence, Set/Get/Has path laws, struct round trips, pointer following (DESIGN §6 lists a pointer-to-time defect out of reach).",
 			Assumptions: commonAssumptions,
 		},
 		"C19": {
 			Technique:   tSSA + "read-operation transaction rule, one-transaction rule for the import composite, guard and error rules",
-			Rules:       []string{"TX4~ExportCollection", "TX3~(ImportCollection|ExportCollection)", "GUARD1~(ImportCollection|HasCollection|IterateDocs)", "ERR1~(ImportCollection|ExportCollection|insertDocs|createCollection)", "IMP1"},
+			Rules:       []string{"TX4~ExportCollection", "TX3~(ImportCollection|ExportCollection)", "GUARD1~(ImportCollection|HasCollection|IterateDocs)", "ERR1~(ImportCollection|ExportCollection|insertDocs|createCollection)", "IMP1", "EMPTY1"},
 			Explanation: "Decides structural clauses of C19: ExportCollection reaches only read-only transactions, so it cannot modify the source (TX4); ImportCollection is one write transaction that creates and fills the collection, so a failing import (existing name, invalid document, store error) commits nothing (TX3, with TX1/TX2 through C04); the existence check comes first and no error on the way is dropped (GUARD1, ERR1).",
 			NotDecided:  "Value equality after JSON typing; file-system failures while writing the export file.",
 			Assumptions: commonAssumptions,
